@@ -1,6 +1,7 @@
 package props
 
 import (
+	"errors"
 	"fmt"
 
 	"pgregory.net/rapid"
@@ -312,9 +313,51 @@ func genHistory(t *rapid.T, o gwOpts) []PktSpec {
 
 // runHistory sends the units over the transport and returns the observation (responses decoded strictly).
 func runHistory(kind string, t gwc.Target, units [][]byte) (model.Obs, sess.Result, *Violation) {
+	return runHistoryVia(kind, t, units, "")
+}
+
+// runHistoryVia: variant "second-in-early" (legacy) retries RDG_IN_DATA with the same connection id while the first
+// RDG_IN_DATA has been accepted but has not yet sent its preamble. A tunnel has one client-to-server channel:
+// if the gateway serves the retry as well, the history is played on it too, and whatever that causes on
+// RDG_OUT_DATA or at the hosts is judged against the one history as usual.
+func runHistoryVia(kind string, t gwc.Target, units [][]byte, variant string) (model.Obs, sess.Result, *Violation) {
 	w := W()
 	s := w.snap()
-	r := sess.Run(kind, t, units)
+	var r sess.Result
+	if variant == "second-in-early" && kind == "legacy" {
+		id := sess.NewConnID()
+		l, err := gwc.OpenOut(t, id)
+		if err == nil {
+			l.HoldPreamble = true
+			if err = l.OpenIn(t, id); err != nil {
+				l.Close()
+			}
+		}
+		if err != nil {
+			r = sess.Result{Kind: kind, OpenStatus: -1, OpenErr: err.Error()}
+			var he *gwc.HTTPStatusError
+			if errors.As(err, &he) {
+				r.OpenStatus = he.Code
+			}
+		} else {
+			if l2, err2 := gwc.OpenInOnlyHeld(t, id); l2 != nil {
+				if err2 == nil && l2.SendPreamble() == nil {
+					l2.Pipeline = true
+					for _, u := range units {
+						if l2.Send(u) != nil {
+							break
+						}
+					}
+					l2.SyncPeer()
+				}
+				defer l2.Close()
+			}
+			l.SendPreamble()
+			r = sess.RunOn(l, units)
+		}
+	} else {
+		r = sess.Run(kind, t, units)
+	}
 	var obs model.Obs
 	if r.OpenStatus != 0 {
 		w.observe(s, 0)
